@@ -99,6 +99,14 @@ def handle : List String → String
       | "getheaders.parse" => runCodec locator
           (fun l => s!"{l.1}/[{joinWith "," (l.2.1.map toHex)}]/{toHex l.2.2}") none' mode b
       | "headers.parse" => runCodec headers (fun l => joinWith ";" (l.map fun h => rHeader h.1)) none' mode b
+      | "sendcmpct.parse" => runCodec sendCmpct (fun t => s!"{t.1}/{t.2}") none' mode b
+      | "getcfilters.parse" => runCodec filterRange (fun t => s!"{t.1}/{t.2.1}/{toHex t.2.2}") none' mode b
+      | "cfilter.parse" => runCodec cfilter (fun t => s!"{t.1}/{toHex t.2.1}/{toHex t.2.2}") none' mode b
+      | "cfheaders.parse" => runCodec cfheaders
+          (fun t => s!"{t.1}/{toHex t.2.1}/{toHex t.2.2.1}/[{joinWith "," (t.2.2.2.map toHex)}]") none' mode b
+      | "getcfcheckpt.parse" => runCodec getcfcheckpt (fun t => s!"{t.1}/{toHex t.2}") none' mode b
+      | "cfcheckpt.parse" => runCodec cfcheckpt
+          (fun t => s!"{t.1}/{toHex t.2.1}/[{joinWith "," (t.2.2.map toHex)}]") none' mode b
       | "version.parse" => runVersion mode b
       | "ssasig.parse" => runCodec ssaSig (fun t => s!"{t.1}/{t.2}") none' mode b
       | "bmssig.parse" => runCodec bmsSig (fun t => s!"{t.1}/{t.2.1}/{t.2.2}") none' mode b
